@@ -381,6 +381,10 @@ def _strategy_base():
                 # decisions that depend on the SHAPE of the completed trading candle (its open against its close)
                 c = self.current_candle
                 return (c[2] > c[1]) if w == 'bullish' else (c[2] < c[1])
+            if w == 'bullish1m':
+                # ... of the newest ONE-MINUTE candle (its open against its close)
+                c1 = self.get_candles(self.exchange, self.symbol, '1m')
+                return len(c1) > 0 and c1[-1][2] > c1[-1][1]
             if w == 'breakout':
                 # ... and on its high against the previous candle's high
                 cs = self.candles
